@@ -62,6 +62,13 @@ var c08Iters = []c08Iter{
 	{"[n]int", named("ar"), kvInts, true, 4},
 	{"*[]int", named("ps"), kvInts, true, 4},
 	{"*[n]int", named("pa"), kvInts, true, 4},
+	{"[n]int-all-zero", named("az"), func(n int) []c08KV {
+		var o []c08KV
+		for i := 0; i < n; i++ {
+			o = append(o, c08KV{fmt.Sprint(i), "0"})
+		}
+		return o
+	}, true, 3},
 	{"array-literal", func(n int) string {
 		var p []string
 		for i := 0; i < n; i++ {
@@ -149,6 +156,17 @@ func c08Context() *plush.Context {
 		c.Set(fmt.Sprintf("ps%d", n), &si)
 		c.Set(fmt.Sprintf("it%d", n), &countIter{max: n})
 		switch n {
+		case 1:
+			c.Set("az1", [1]int{})
+		case 2:
+			c.Set("az2", &[2]int{})
+		case 3:
+			c.Set("az3", [3]int{})
+		}
+		if n == 0 {
+			c.Set("az0", [0]int{})
+		}
+		switch n {
 		case 0:
 			c.Set("ar0", [0]int{})
 			c.Set("pa0", &[0]int{})
@@ -199,6 +217,10 @@ var c08Items = []c08Item{
 	{"inner-cont", `<%= for (w) in ys { %><% if (w == "a") { continue } %><%= w %><% } %>`, "inner-cont"},
 	{"inner-silent", `<% for (w) in ys { } %>`, "inner-silent"},
 	{"fn-lit", `<% let g = fn() { return 1 } %>`, "inner-silent"},
+	// inner loops that re-use the outer loop's variable names (over an Iterator, a slice, nil)
+	{"inner-iter-shadow", `<%= for (k, v) in range(8, 9) { %><%= v %><% } %>`, "inner-89"},
+	{"inner-slice-shadow", `<%= for (k, v) in ys { %><%= k %><% } %>`, "inner-01"},
+	{"inner-nil-shadow", `<% for (k, v) in nil { %>never<% } %>`, "inner-silent"},
 }
 
 // c08Ref is the reference interpreter: output of a loop over elems.
@@ -243,6 +265,10 @@ loop:
 				out.WriteString("a")
 			case "inner-cont":
 				out.WriteString("b")
+			case "inner-89":
+				out.WriteString("89")
+			case "inner-01":
+				out.WriteString("01")
 			case "inner-silent":
 			}
 		}
@@ -273,7 +299,7 @@ func init() {
 			return s
 		},
 		Run:  c08Run,
-		Rule: "iterables: []int, []string, []interface{}, [n]int, *[]int, *[n]int, array literal, map[string]int, map[int]string, *map, hash literal, range/between/until, custom Iterator, groupBy, each at every length 0..3 (4 thorough); nil / typed-nil (render nothing) and int/string/struct/func (must be an error). bodies: every sequence of <=3 (4 thorough) statements over 16 items (emit literal/value/key, if+break, if+continue, emit-then-break, nested-if break, bare break/continue, return, let+emit, inner loop plain/with break/with continue/silent, fn literal) in two tag layouts (one statement per tag; adjacent code tags merged) and 4 placements. Oracle: a reference interpreter over the body gives the expected text for ordered iterables; for maps every iteration starts with a sentinel+key, the observed visiting order must be a permutation (prefix when a break fires) of the entries and the reference run in that order must reproduce the output exactly; maps are additionally rendered under every forced rotation of Go's map iteration order (runtime hook). Control-free bodies are also checked by unrolling (body rendered per element with let-bound loop variables). Non-trivial: length>=2 and body contains a control statement or inner loop.",
+		Rule: "iterables: []int, []string, []interface{}, [n]int, *[]int, *[n]int, arrays whose elements are all zero values, array literal, map[string]int, map[int]string, *map, hash literal, range/between/until, custom Iterator, groupBy, each at every length 0..3 (4 thorough); nil / typed-nil (render nothing) and int/string/struct/func (must be an error). bodies: every sequence of <=3 (4 thorough) statements over 19 items (emit literal/value/key, if+break, if+continue, emit-then-break, nested-if break, bare break/continue, return, let+emit, inner loop plain/with break/with continue/silent, fn literal, inner loops over an Iterator / a slice / nil that re-use the outer loop's variable names) in two tag layouts (one statement per tag; adjacent code tags merged) and 4 placements. Oracle: a reference interpreter over the body gives the expected text for ordered iterables; for maps every iteration starts with a sentinel+key, the observed visiting order must be a permutation (prefix when a break fires) of the entries and the reference run in that order must reproduce the output exactly; maps are additionally rendered under every forced rotation of Go's map iteration order (runtime hook). Control-free bodies are also checked by unrolling (body rendered per element with let-bound loop variables). Non-trivial: length>=2 and body contains a control statement or inner loop.",
 		Bound: func(th bool) string {
 			if th {
 				return "lengths 0..4, body sequences <=4"
